@@ -484,6 +484,91 @@ Proof.
   right. exists rq, rd, s. repeat split. exact Sv.
 Qed.
 
+(* ---------- BrowserWorld: the CSRF cookie in a browser's jar ---------- *)
+Lemma callback_saved_cleared cfg now rq rd s :
+  cr_saved (oauth_callback lower cfg now rq rd) = Some s ->
+  cr_csrf_cleared (oauth_callback lower cfg now rq rd) = true.
+Proof.
+  unfold oauth_callback.
+  repeat match goal with
+         | |- context [if ?b then _ else _] => destruct b; cbn [cr_saved cb_error_page cr_csrf_cleared]; try discriminate
+         | |- context [match ?x with _ => _ end] => destruct x; cbn [cr_saved cb_error_page cr_csrf_cleared]; try discriminate
+         end;
+  reflexivity.
+Qed.
+
+Lemma jar_after_start jar nonce rq :
+  jar_apply_all jar (start_set_cookies (oauth_start nonce rq)) =
+  match sr_csrf_set (oauth_start nonce rq) with Some n => Some n | None => jar end.
+Proof. unfold start_set_cookies. destruct (sr_csrf_set (oauth_start nonce rq)); reflexivity. Qed.
+
+Lemma jar_after_callback jar r :
+  jar_apply_all jar (callback_set_cookies r) = if cr_csrf_cleared r then None else jar.
+Proof. unfold callback_set_cookies. destruct (cr_csrf_cleared r); reflexivity. Qed.
+
+Lemma start_sets_own_nonce nonce rq n : sr_csrf_set (oauth_start nonce rq) = Some n -> n = nonce.
+Proof.
+  unfold oauth_start.
+  repeat match goal with |- context [if ?b then _ else _] => destruct b; cbn [sr_csrf_set] end;
+  congruence.
+Qed.
+
+(* whatever CSRF cookie the jar holds was delivered by a /start response to this browser *)
+Definition binv (w : bworld) : Prop := forall n, bw_csrf w = Some n -> In n (bw_starts w).
+
+Lemma binv_step cfg w e : binv w -> binv (bstep lower cfg w e).
+Proof.
+  intros H. destruct e as [d|nonce rq|rq rd|p rq rr vr]; cbn [bstep]; unfold binv; cbn [bw_csrf bw_starts].
+  - exact H.
+  - rewrite jar_after_start. destruct (sr_csrf_set (oauth_start nonce rq)) as [m|].
+    + intros n E; inversion E; subst. left; reflexivity.
+    + exact H.
+  - rewrite jar_after_callback.
+    destruct (cr_csrf_cleared (oauth_callback lower cfg (bw_now w) (with_csrf rq (bw_csrf w)) rd)); [discriminate | exact H].
+  - exact H.
+Qed.
+
+Lemma binv_run cfg evs w : binv w -> binv (brun lower cfg w evs).
+Proof.
+  revert w; induction evs as [|e evs IH]; intros w H; cbn; [exact H|]. apply IH, binv_step, H.
+Qed.
+
+(* ... and every such nonce was the server's choice at a /start event of this history *)
+Lemma starts_from_events cfg evs w n :
+  In n (bw_starts (brun lower cfg w evs)) ->
+  In n (bw_starts w) \/ exists rq, In (BvStart n rq) evs.
+Proof.
+  revert w; induction evs as [|e evs IH]; intros w H; cbn in H; [left; exact H|].
+  destruct (IH _ H) as [H1|[rq H1]]; [|right; exists rq; right; exact H1].
+  destruct e as [d|nonce rq|rq rd|p rq rr vr]; cbn [bstep bw_starts] in H1; try (left; exact H1).
+  destruct (sr_csrf_set (oauth_start nonce rq)) as [m|] eqn:E; [|left; exact H1].
+  destruct H1 as [H1|H1]; [|left; exact H1].
+  apply start_sets_own_nonce in E. subst. right. exists rq. left; reflexivity.
+Qed.
+
+(* C09_browser_csrf_binding *)
+Lemma browser_csrf_binding cfg evs t0 rq rd s :
+  let w := brun lower cfg (bworld0 t0) evs in
+  cr_saved (oauth_callback lower cfg (bw_now w) (with_csrf rq (bw_csrf w)) rd) = Some s ->
+  exists nonce redirect srq,
+    cb_state rq = Some (nonce ++ colon :: redirect) /\ ~ In colon nonce /\
+    bw_csrf w = Some nonce /\ In (BvStart nonce srq) evs /\
+    cb_redirect_ok rq redirect = true /\
+    bw_csrf (bstep lower cfg w (BvCallback rq rd)) = None /\
+    bw_sess (bstep lower cfg w (BvCallback rq rd)) = Some s.
+Proof.
+  cbv zeta. set (w := brun lower cfg (bworld0 t0) evs). intros Sv.
+  pose proof (callback_saved_cleared _ _ _ _ _ Sv) as Cl.
+  pose proof (callback_csrf _ _ _ _ _ Sv) as
+    [nonce [redirect [email [access [rtok [dur [_ [_ [_ [Hst [Hn [Hc [Hr _]]]]]]]]]]]]].
+  cbn [with_csrf cb_state cb_csrf cb_redirect_ok] in Hst, Hc, Hr.
+  assert (Hin : In nonce (bw_starts w)).
+  { apply (binv_run cfg evs (bworld0 t0)); [intros n E; discriminate | exact Hc]. }
+  destruct (starts_from_events _ _ _ _ Hin) as [[]|[srq Hs]].
+  exists nonce, redirect, srq. cbn [bstep bw_csrf bw_sess]. rewrite jar_after_callback, Cl, Sv.
+  repeat split; assumption.
+Qed.
+
 End P.
 
 (* ---------- non-vacuity: a concrete history ---------- *)
@@ -523,3 +608,18 @@ Proof. eexists. vm_compute. reflexivity. Qed.
 Example ex_callback_saves :
   exists s, cr_saved (oauth_callback lower_ascii ex_cfg 0 ex_cb (RdTokens ex_email [116]%N [114]%N 900)) = Some s.
 Proof. eexists. vm_compute. reflexivity. Qed.
+
+(* a browser: /start, honest callback (session), then a forged empty-nonce callback (refused:
+   the jar holds no CSRF cookie any more) *)
+Definition ex_start : start_request := mkST true true true true ex_redirect.
+Definition ex_bcb (plain : str) : cb_request := mkCB true [] [99]%N (Some plain) None (fun r => str_eqb r ex_redirect).
+Example ex_browser_runs :
+  let rd := RdTokens ex_email [116]%N [114]%N 900 in
+  let w1 := brun lower_ascii ex_cfg (bworld0 0) [BvStart ex_nonce ex_start] in
+  let w2 := bstep lower_ascii ex_cfg w1 (BvCallback (ex_bcb (ex_nonce ++ colon :: ex_redirect)) rd) in
+  bw_csrf w1 = Some ex_nonce /\ bw_csrf w2 = None /\ (exists s, bw_sess w2 = Some s) /\
+  cr_saved (oauth_callback lower_ascii ex_cfg 0 (with_csrf (ex_bcb (colon :: ex_redirect)) (bw_csrf w2)) rd) = None /\
+  (* had the callback left a live empty-valued cookie behind, the forged callback would succeed *)
+  (exists s, cr_saved (oauth_callback lower_ascii ex_cfg 0 (with_csrf (ex_bcb (colon :: ex_redirect))
+                         (jar_apply_all (bw_csrf w1) [mkSC [] false])) rd) = Some s).
+Proof. vm_compute. repeat split; try reflexivity; eexists; reflexivity. Qed.
